@@ -255,6 +255,7 @@ def run(ctx):
     _run_rules(ctx)
     from .. import boundaries
     boundaries.check(ctx, 'C05.RB', 'C05')
+    boundaries.check_layering(ctx, 'C05.RL')
     from . import C19
     C19.r10_drains_loop(ctx, 'C05.R8')  # slots of unreachable promised streams are all recycled
     boundaries.check_inits(ctx, 'C05.RI', 'C05')
